@@ -84,6 +84,8 @@ type Term struct {
 	name string
 	defd bool // emitted to solver (per solver instance; one solver per table)
 	fp   bool // contains floating-point sub-terms
+	lanes     []*Term
+	lanesDone bool
 }
 
 func (t *Term) IsConst() bool { return t.op == OConst }
@@ -310,7 +312,11 @@ func (tt *TermTable) Or(a, b *Term) *Term {
 	if a == b {
 		return a
 	}
-	return tt.bin(OOr, a, b)
+	r := tt.bin(OOr, a, b)
+	if (a.op == OShl || a.op == OZExt || a.op == OOr || a.op == OConcat) && (b.op == OShl || b.op == OZExt || b.op == OOr || b.op == OConcat || b.IsConst()) {
+		return tt.normLanes(r)
+	}
+	return r
 }
 func (tt *TermTable) Xor(a, b *Term) *Term {
 	if a.IsConst() && b.IsConst() {
@@ -392,6 +398,27 @@ func (tt *TermTable) Extract(a *Term, hi, lo int) *Term {
 	}
 	if a.IsConst() {
 		return tt.BV(a.c>>uint(lo), w)
+	}
+	if a.op == OLShr && a.a[1].IsConst() && hi+int(a.a[1].c) < a.w {
+		sh := int(a.a[1].c)
+		return tt.Extract(a.a[0], hi+sh, lo+sh)
+	}
+	if a.op == OShl && a.a[1].IsConst() && lo >= int(a.a[1].c) {
+		sh := int(a.a[1].c)
+		return tt.Extract(a.a[0], hi-sh, lo-sh)
+	}
+	if a.op == OExtract {
+		l0 := int(a.c & 0xff)
+		return tt.Extract(a.a[0], hi+l0, lo+l0)
+	}
+	if a.op == OConcat {
+		lw := a.a[1].w
+		if hi < lw {
+			return tt.Extract(a.a[1], hi, lo)
+		}
+		if lo >= lw {
+			return tt.Extract(a.a[0], hi-lw, lo-lw)
+		}
 	}
 	if (a.op == OZExt || a.op == OSExt) && lo == 0 {
 		in := a.a[0]
@@ -875,3 +902,193 @@ func (t *Term) body() string {
 // evalConst evaluates a term under an assignment of variables (used to
 // double-check models and to compute replay vectors for derived values).
 func popcount(x uint64) int { return bits.OnesCount64(x) }
+
+// ---- byte-lane normalisation ----
+// Values are routinely taken apart into bytes (shifts + truncation) and put
+// together again (zero-extension, shifts, or). lanesOf describes a term as a
+// little-endian vector of 8-bit terms where that is syntactically evident, and
+// fromLanes rebuilds the cheapest equivalent term — in particular the original
+// 64-bit variable when all its bytes come back in order.
+
+func (tt *TermTable) lanesOf(t *Term) []*Term {
+	if t.kind != KBV || t.w%8 != 0 {
+		return nil
+	}
+	if t.lanesDone {
+		return t.lanes
+	}
+	t.lanesDone = true
+	n := t.w / 8
+	var res []*Term
+	switch t.op {
+	case OConst:
+		res = make([]*Term, n)
+		for i := range res {
+			res[i] = tt.BV(t.c>>(8*uint(i)), 8)
+		}
+	case OZExt:
+		in := tt.lanesOf(t.a[0])
+		if in == nil {
+			break
+		}
+		res = append(append([]*Term(nil), in...), make([]*Term, n-len(in))...)
+		for i := len(in); i < n; i++ {
+			res[i] = tt.BV(0, 8)
+		}
+	case OShl:
+		if !t.a[1].IsConst() || t.a[1].c%8 != 0 {
+			break
+		}
+		in := tt.lanesOf(t.a[0])
+		if in == nil {
+			break
+		}
+		sh := int(t.a[1].c / 8)
+		res = make([]*Term, n)
+		for i := range res {
+			if i < sh {
+				res[i] = tt.BV(0, 8)
+			} else {
+				res[i] = in[i-sh]
+			}
+		}
+	case OLShr:
+		if !t.a[1].IsConst() || t.a[1].c%8 != 0 {
+			break
+		}
+		in := tt.lanesOf(t.a[0])
+		if in == nil {
+			break
+		}
+		sh := int(t.a[1].c / 8)
+		res = make([]*Term, n)
+		for i := range res {
+			if i+sh < n {
+				res[i] = in[i+sh]
+			} else {
+				res[i] = tt.BV(0, 8)
+			}
+		}
+	case OOr:
+		la, lb := tt.lanesOf(t.a[0]), tt.lanesOf(t.a[1])
+		if la == nil || lb == nil {
+			break
+		}
+		res = make([]*Term, n)
+		for i := range res {
+			switch {
+			case la[i].IsConst() && la[i].c == 0:
+				res[i] = lb[i]
+			case lb[i].IsConst() && lb[i].c == 0:
+				res[i] = la[i]
+			case la[i].IsConst() && lb[i].IsConst():
+				res[i] = tt.BV(la[i].c|lb[i].c, 8)
+			default:
+				res = nil
+			}
+			if res == nil {
+				break
+			}
+		}
+	case OConcat:
+		hi, lo := tt.lanesOf(t.a[0]), tt.lanesOf(t.a[1])
+		if hi != nil && lo != nil {
+			res = append(append([]*Term(nil), lo...), hi...)
+		}
+	case OExtract:
+		hiB, loB := int(t.c>>8), int(t.c&0xff)
+		if loB%8 == 0 && (hiB+1)%8 == 0 {
+			if in := tt.lanesOf(t.a[0]); in != nil {
+				res = append([]*Term(nil), in[loB/8:(hiB+1)/8]...)
+			}
+		}
+	}
+	if res == nil {
+		if n == 1 {
+			res = []*Term{t}
+		} else if t.op == OVar || t.op == OIte || t.op == OAdd || t.op == OSub {
+			// opaque wide term: its own byte slices
+			res = make([]*Term, n)
+			for i := range res {
+				res[i] = tt.mk(&Term{op: OExtract, kind: KBV, w: 8, a: []*Term{t}, c: uint64(8*i+7)<<8 | uint64(8*i)})
+			}
+		}
+	}
+	t.lanes = res
+	return res
+}
+
+// fromLanes builds a term of width 8*len(l) from little-endian byte terms.
+func (tt *TermTable) fromLanes(l []*Term) *Term {
+	n := len(l)
+	// piece: run of lanes that are consecutive byte slices of one source
+	type piece struct {
+		t *Term
+	}
+	var pieces []*Term // little-endian pieces
+	i := 0
+	for i < n {
+		b := l[i]
+		if b.IsConst() {
+			j := i
+			var v uint64
+			for j < n && l[j].IsConst() && j-i < 8 {
+				v |= l[j].c << (8 * uint(j-i))
+				j++
+			}
+			pieces = append(pieces, tt.BV(v, 8*(j-i)))
+			i = j
+			continue
+		}
+		if b.op == OExtract && b.w == 8 && (b.c&0xff)%8 == 0 {
+			src := b.a[0]
+			lo := int(b.c & 0xff)
+			j := i + 1
+			for j < n && l[j].op == OExtract && l[j].a[0] == src && int(l[j].c&0xff) == lo+8*(j-i) && l[j].w == 8 {
+				j++
+			}
+			hi := lo + 8*(j-i) - 1
+			if lo == 0 && hi == src.w-1 {
+				pieces = append(pieces, src)
+			} else {
+				pieces = append(pieces, tt.mk(&Term{op: OExtract, kind: KBV, w: hi - lo + 1, a: []*Term{src}, c: uint64(hi)<<8 | uint64(lo)}))
+			}
+			i = j
+			continue
+		}
+		pieces = append(pieces, b)
+		i++
+	}
+	// zero high part -> zero extension
+	res := pieces[0]
+	for k := 1; k < len(pieces); k++ {
+		p := pieces[k]
+		if p.IsConst() && p.c == 0 && k == len(pieces)-1 {
+			res = tt.mk(&Term{op: OZExt, kind: KBV, w: res.w + p.w, a: []*Term{res}})
+			continue
+		}
+		if p.IsConst() && res.IsConst() && p.w+res.w <= 64 {
+			res = tt.BV(p.c<<uint(res.w)|res.c, p.w+res.w)
+			continue
+		}
+		res = tt.mk(&Term{op: OConcat, kind: KBV, w: res.w + p.w, a: []*Term{p, res}})
+	}
+	return res
+}
+
+// normLanes returns an equivalent, usually much smaller, term when t is a
+// byte-shuffle; t itself otherwise.
+func (tt *TermTable) normLanes(t *Term) *Term {
+	if t.w <= 8 {
+		return t
+	}
+	l := tt.lanesOf(t)
+	if l == nil {
+		return t
+	}
+	r := tt.fromLanes(l)
+	if r.w != t.w {
+		return t
+	}
+	return r
+}
